@@ -134,7 +134,7 @@ def _capture_class(pattern, flags, group=1):
     return frozenset(rx.chars_in(g, alpha, rx.flags_of(sub))), alpha
 
 
-@rule("C18.module-encoding", min_instances=6)
+@rule("C18.module-encoding", min_instances=6, props=["C08"])
 def module_encoding(ctx):
     """the encoding used to encode the module source, the emitted coding comment and _source_encoding all derive from lexer.encoding; writer/reader coding regexes agree; the emitted comment is in the reader's language"""
     db = ctx.db
